@@ -9,7 +9,10 @@ package server
 import (
 	"bufio"
 	"encoding/json"
+	"fmt"
 	"os"
+	"runtime"
+	"strings"
 	"testing"
 	"time"
 
@@ -48,7 +51,37 @@ func vReadScenarios(path string) []vScenario {
 	return out
 }
 
+// runSeqStep executes one driver step.  A panic of the real code is recorded as an event (the history ends there:
+// the shard mutex may still be held) - a crash on well-formed requests is a violation of C13.
 func (w *vWorld) runSeqStep(nextId *int64, r *vReq, snapEvery bool) {
+	if w.dead {
+		return
+	}
+	defer func() {
+		if x := recover(); x != nil {
+			w.dead = true
+			buf := make([]byte, 1<<16)
+			n := runtime.Stack(buf, false)
+			w.tr.Emit(map[string]interface{}{"e": "panic", "msg": fmt.Sprint(x), "site": vPanicSite(string(buf[:n])), "op": r.Op, "t": w.now})
+		}
+	}()
+	w.runSeqStep1(nextId, r, snapEvery)
+}
+
+// first frame of slock's own code (not the harness, not the runtime) on the panicking stack
+func vPanicSite(stack string) string {
+	for _, ln := range strings.Split(stack, "\n") {
+		if strings.HasPrefix(ln, "github.com/snower/slock/") && !strings.Contains(ln, ".v") && !strings.Contains(ln, "vWorld") && !strings.Contains(ln, "TestVerif") {
+			if i := strings.LastIndex(ln, "("); i > 0 {
+				ln = ln[:i]
+			}
+			return strings.TrimPrefix(ln, "github.com/snower/slock/")
+		}
+	}
+	return "unknown"
+}
+
+func (w *vWorld) runSeqStep1(nextId *int64, r *vReq, snapEvery bool) {
 	switch r.Op {
 	case "lock", "unlock":
 		if r.Op == "lock" && r.NoDupWait && w.hasLiveWaiter(r) {
@@ -186,8 +219,10 @@ func TestVerifS(t *testing.T) {
 		for j := range sc.Steps {
 			w.runSeqStep(&nextId, &sc.Steps[j], sc.Snap == 0)
 		}
-		tr.Emit(map[string]interface{}{"e": "end", "name": sc.Name, "idx": i, "t": w.now, "complete": sc.Complete})
-		w.Close(true)
+		tr.Emit(map[string]interface{}{"e": "end", "name": sc.Name, "idx": i, "t": w.now, "complete": sc.Complete && !w.dead})
+		if !w.dead {
+			w.Close(true)
+		}
 	}
 }
 
